@@ -161,11 +161,17 @@ Definition alloc_bound (s : pstate) (o : op) : N :=
   | _, _ => 24 * op_size o + 65536
   end.
 
+(* ... and the model's cost function accounts for what the Go runtime measured (TotalAlloc over
+   the handler), up to the constant factor and slack of Go's allocator and of the messages and
+   events the handler builds: this is what ties Properties/C05.v's c05_alloc_proportional to peer.go *)
 Definition mon05_step (x : pstate * res * pstep) : bool :=
-  let '(s, _, o) := x in
+  let '(s, r, o) := x in
   negb (verdict_eqb (st_verdict o) VPanic) &&
   match st_op o with
-  | OpMsg _ _ => st_alloc o <=? alloc_bound s (st_op o)
+  | OpMsg m ad =>
+    (* the piece store's buffer for a piece's first block is an oracle of this model (C01/C03) *)
+    let store := match m, ad, s_geo s with Piece _ _ _, Some _, Some g => 2 * psize g | _, _, _ => 0 end in
+    (st_alloc o <=? alloc_bound s (st_op o)) && (st_alloc o <=? 24 * a_alloc (fst r) + store + 65536)
   | _ => true
   end.
 (* a panic is a violation whether or not the model could follow the history up to it *)
